@@ -38,21 +38,26 @@ impl Out {
 
 /// Element types the generic containers are instantiated at.  A value is projected to a pair of
 /// integers (real part, imaginary part); real types have imaginary part 0.
-pub trait Elem: Copy + Clone + ohsl::Number + ohsl::Signed + std::fmt::Debug + 'static {
+pub trait ElemBase: Copy + Clone + ohsl::Number + std::fmt::Debug + 'static {
     const CX: bool;
     const NAME: &'static str;
     fn from_ri(re: i64, im: i64) -> Self;
     fn to_ri(&self) -> (i64, i64);
 }
+/// element types that also have a sign (everything except the unsigned integers)
+pub trait Elem: ElemBase + ohsl::Signed {}
+impl<T: ElemBase + ohsl::Signed> Elem for T {}
 fn f2i(x: f64) -> i64 { if x.is_finite() && x == x.trunc() && x.abs() < SAT as f64 { x as i64 } else { BAD } }
-impl Elem for f64 { const CX: bool = false; const NAME: &'static str = "f64";
+impl ElemBase for f64 { const CX: bool = false; const NAME: &'static str = "f64";
     fn from_ri(re: i64, _im: i64) -> f64 { re as f64 } fn to_ri(&self) -> (i64, i64) { (f2i(*self), 0) } }
-impl Elem for Rat { const CX: bool = false; const NAME: &'static str = "rat";
+impl ElemBase for Rat { const CX: bool = false; const NAME: &'static str = "rat";
     fn from_ri(re: i64, _im: i64) -> Rat { Rat::int(re) }
     fn to_ri(&self) -> (i64, i64) { (if self.d == 1 && self.n.abs() < SAT as i128 { self.n as i64 } else { BAD }, 0) } }
-impl Elem for i64 { const CX: bool = false; const NAME: &'static str = "i64";
+impl ElemBase for i64 { const CX: bool = false; const NAME: &'static str = "i64";
     fn from_ri(re: i64, _im: i64) -> i64 { re } fn to_ri(&self) -> (i64, i64) { (if self.abs() < SAT { *self } else { BAD }, 0) } }
-impl Elem for Cmplx { const CX: bool = true; const NAME: &'static str = "cx";
+impl ElemBase for u32 { const CX: bool = false; const NAME: &'static str = "u32";
+    fn from_ri(re: i64, _im: i64) -> u32 { re as u32 } fn to_ri(&self) -> (i64, i64) { (if (*self as i64) < SAT { *self as i64 } else { BAD }, 0) } }
+impl ElemBase for Cmplx { const CX: bool = true; const NAME: &'static str = "cx";
     fn from_ri(re: i64, im: i64) -> Cmplx { Cmplx::new(re as f64, im as f64) } fn to_ri(&self) -> (i64, i64) { (f2i(self.real), f2i(self.imag)) } }
 
 /// which component of a projection is wanted
@@ -60,12 +65,12 @@ impl Elem for Cmplx { const CX: bool = true; const NAME: &'static str = "cx";
 pub enum Part { Re, Im }
 pub fn part(p: (i64, i64), w: Part) -> i64 { if w == Part::Re { p.0 } else { p.1 } }
 
-pub fn jmat<T: Elem>(m: &Matrix<T>, w: Part) -> Value {
+pub fn jmat<T: ElemBase>(m: &Matrix<T>, w: Part) -> Value {
     let mut d = Vec::with_capacity(m.rows() * m.cols());
     for i in 0..m.rows() { for j in 0..m.cols() { d.push(part(m[(i, j)].to_ri(), w)); } }
     json!({"r": m.rows(), "c": m.cols(), "d": d})
 }
-pub fn jvec<T: Elem>(v: &Vector<T>, w: Part) -> Value { Value::from(v.vec.iter().map(|x| part(x.to_ri(), w)).collect::<Vec<i64>>()) }
+pub fn jvec<T: ElemBase>(v: &Vector<T>, w: Part) -> Value { Value::from(v.vec.iter().map(|x| part(x.to_ri(), w)).collect::<Vec<i64>>()) }
 
 pub fn geti(v: &Value, k: &str) -> i64 { v[k].as_i64().unwrap_or_else(|| { eprintln!("TOOL-ERROR missing int field {} in {}", k, v); std::process::exit(2) }) }
 pub fn getu(v: &Value, k: &str) -> usize { let x = geti(v, k); if x < 0 { usize::MAX / 4 } else { x as usize } }
@@ -73,14 +78,14 @@ pub fn gets<'a>(v: &'a Value, k: &str) -> &'a str { v[k].as_str().unwrap_or("") 
 pub fn ivec(v: &Value) -> Vec<i64> { v.as_array().map(|a| a.iter().map(|x| x.as_i64().unwrap()).collect()).unwrap_or_default() }
 
 /// build a matrix from {r,c,d} (+ optional imaginary twin)
-pub fn mat_from<T: Elem>(re: &Value, im: Option<&Value>) -> Matrix<T> {
+pub fn mat_from<T: ElemBase>(re: &Value, im: Option<&Value>) -> Matrix<T> {
     let r = getu(re, "r"); let c = getu(re, "c"); let d = ivec(&re["d"]);
     let di = im.map(|v| ivec(&v["d"]));
     let mut m = Matrix::<T>::new(r, c, T::from_ri(0, 0));
     for i in 0..r { for j in 0..c { let k = i * c + j; m[(i, j)] = T::from_ri(d[k], di.as_ref().map(|x| x[k]).unwrap_or(0)); } }
     m
 }
-pub fn vec_from<T: Elem>(re: &Value, im: Option<&Value>) -> Vector<T> {
+pub fn vec_from<T: ElemBase>(re: &Value, im: Option<&Value>) -> Vector<T> {
     let d = ivec(re); let di = im.map(ivec);
     Vector::create(d.iter().enumerate().map(|(k, x)| T::from_ri(*x, di.as_ref().map(|y| y[k]).unwrap_or(0))).collect())
 }
